@@ -207,7 +207,7 @@ def graph_spec(tier: str, light: bool = False) -> Dict[str, Any]:
     lists: Dict[str, List[Graph]] = {}
     s3 = frontend_corpus_s3()
     if s3:
-        lists["S3"] = s3 if not light else s3[::4]
+        lists["S3"] = s3 if not light else s3[::8]
     try:
         if tier == "quick":
             s1 = frontend_graphs(1)
